@@ -92,11 +92,25 @@ def solve_observe(cons, obj_ids, sense, scalars_by_id):
             t = cf * scalars_by_id[vid]
             obj = t if obj is None else obj + t
         prob = cl.Problem(sense, obj, cons)
+        if has_constant_equality_row(prob):
+            return {'status': 'degenerate equality row', 'value': float('nan')}
         st, val = prob.solve(solver='ECOS', verbose=False)
         return {'status': st, 'value': float(val), 'K': sorted(Counter((co.type, int(co.len)) for co in prob.K).items()),
                 'rows': int(prob.A.shape[0])}
     except Exception as e:  # noqa: BLE001
         return {'raises': type(e).__name__, 'msg': str(e)[:160]}
+
+
+def has_constant_equality_row(prob):
+    A = prob.A.tocsr()
+    i = 0
+    for co in prob.K:
+        if co.type == '0':
+            for r in range(i, i + co.len):
+                if A.indptr[r + 1] == A.indptr[r]:
+                    return True
+        i += co.len
+    return False
 
 
 def same_value(a, b, tol=1e-5):
@@ -172,10 +186,17 @@ def run_history(ctx, hseed, maxops):
                         t = cf * s[p]
                         obj = t if obj is None else obj + t
                     prob = cl.Problem(sense, obj, [world.cons[i] for i in idxs])
+                    if has_constant_equality_row(prob):
+                        # "0 == c": ECOS cannot be trusted with an all-zero equality row (set-up error or crash, not
+                        # reproducibly): the structure is still compared by the compile steps, the solve is skipped
+                        return {'status': 'degenerate equality row', 'value': float('nan')}
                     st, val = prob.solve(solver='ECOS', verbose=False)
                     return {'status': st, 'value': float(val),
                             'K': sorted(Counter((co.type, int(co.len)) for co in prob.K).items()), 'rows': int(prob.A.shape[0])}
                 except Exception as e:  # noqa: BLE001
+                    if 'ECOS' in str(e):
+                        # the solver itself gave up while setting up (not reproducible run to run): no verdict
+                        return {'status': 'solver trouble', 'value': float('nan')}
                     return {'raises': type(e).__name__, 'msg': str(e)[:160]}
             got = do(w)
             want = do(World(subseed))
@@ -306,6 +327,9 @@ def run(ctx):
         io = s['out']
         ctx.count('stream:compile-step')
         if 'raises' in io or 'raises' in mo:
+            if 'raises' in io and 'raises' not in mo and not c07.mentions_variable(s['pre']):
+                ctx.count('skipped:no-variable-anywhere')      # constants only: cannot be compiled (see C07)
+                continue
             if ('raises' in io) != ('raises' in mo):
                 ctx.disagreement('compile-step', {'hseed': s['hseed'], 'k': s['k'], 'pre': s['pre']}, io, mo)
             else:
